@@ -80,6 +80,11 @@ func gen(g *mon.Gen) {
 				g.Emit(&Case{Client: client, Mode: "plain", G: 4, M: 2, Seed: rng.Int63(), Delay: 4, Block: rep%2 == 0})
 			}
 			if client != clientx.Serial && (rep < 2 || g.Thorough() && rep%10 == 0) {
+				// a crowd: many callers and no transport delay - the order in which callers arrive and the order in which
+				// they are served differ as often as the scheduler allows
+				g.Emit(&Case{Client: client, Mode: "plain", G: 64, M: 40, Seed: rng.Int63(), Delay: 0})
+				g.Emit(&Case{Client: client, Mode: "plain", G: 24, M: 100, Seed: rng.Int63(), Delay: 0})
+				g.Emit(&Case{Client: client, Mode: "linear", G: 16, M: 12, Seed: rng.Int63(), Delay: 0})
 				g.Emit(&Case{Client: client, Mode: "plain", G: 8, M: 2, Seed: rng.Int63(), Delay: 3})
 				g.Emit(&Case{Client: client, Mode: "reconnect", G: 4, M: 3, Seed: rng.Int63(), Delay: rep % 2})
 			}
@@ -674,7 +679,15 @@ func run(ci any, r *mon.Rec) {
 		}
 	}
 	close(stop)
-	wg.Wait()
+	if !waitBounded(&wg, 60*time.Second) {
+		// (the helpers of the case - the goroutine that closes and reconnects, the one whose request panics inside Do -
+		// use the same client: one of them still blocked a minute after the callers are done is the same finding)
+		buf := make([]byte, 1<<16)
+		n := runtime.Stack(buf, true)
+		r.Violate(c, "calls-never-return", a, fmt.Sprintf("%s: all callers are done (%d calls) and 60 s later a helper goroutine of the case is still blocked in the client; goroutines:\n%s", ctxs, okCalls.Load()+errCalls.Load(), string(buf[:n])))
+		finishConns(c, r, conns, a, ctxs, false)
+		return
+	}
 	if p, txt := mon.Catch(func() { _ = cl.Close() }); p {
 		addViol("lifecycle-panics", "Close at the end of the case: "+txt)
 	}
@@ -702,6 +715,18 @@ func run(ci any, r *mon.Rec) {
 		gh.mu.Unlock()
 	}
 	finishConns(c, r, conns, a, ctxs, c.Mode == "plain")
+}
+
+// waitBounded waits for wg at most d (every operation behind it takes microseconds to a few client timeouts)
+func waitBounded(wg *sync.WaitGroup, d time.Duration) bool {
+	done := make(chan struct{})
+	go func() { wg.Wait(); close(done) }()
+	select {
+	case <-done:
+		return true
+	case <-time.After(d):
+		return false
+	}
 }
 
 func dedupe(in []string) []string {
@@ -827,7 +852,12 @@ func runLinear(c *Case, r *mon.Rec, cl doer, dev *simdev.Device, fr specref.Fram
 			}
 		}(g)
 	}
-	wg.Wait()
+	if !waitBounded(&wg, 60*time.Second) {
+		buf := make([]byte, 1<<16)
+		n := runtime.Stack(buf, true)
+		r.Violate(c, "calls-never-return", a, fmt.Sprintf("%s: 60 s after the start callers of the register history were still blocked in Do; goroutines:\n%s", ctxs, string(buf[:n])))
+		return
+	}
 	_ = cl.Close()
 	model := porcupine.Model{
 		Partition: func(h []porcupine.Operation) [][]porcupine.Operation {
